@@ -170,6 +170,10 @@ int main(int argc, char** argv) {
     return enumClockSync((unsigned)strtoul(argv[2], nullptr, 10), (unsigned)strtoul(argv[3], nullptr, 10),
         (unsigned)strtoul(argv[4], nullptr, 10));
   }
+  if (cmd == "sweep08" && argc >= 5) {
+    return sweepTzPairs((unsigned)strtoul(argv[2], nullptr, 10), (unsigned)strtoul(argv[3], nullptr, 10),
+        (unsigned)strtoul(argv[4], nullptr, 10));
+  }
   if (cmd == "sweep13" && argc >= 4) {
     return sweepClockKeep((uint32_t)strtoul(argv[2], nullptr, 10), (uint32_t)strtoul(argv[3], nullptr, 10));
   }
